@@ -1282,7 +1282,12 @@ static void uv__stream_connect(uv_stream_t* stream) {
   stream->connect_req = NULL;
   uv__req_unregister(stream->loop);
 
-  if (error < 0 || uv__queue_empty(&stream->write_queue)) {
+  /* Keep watching for POLLOUT when a shutdown was requested while connecting:
+   * uv__stream_io() completes it once the stream is writable.
+   */
+  if (error < 0 ||
+      (uv__queue_empty(&stream->write_queue) &&
+       !uv__is_stream_shutting(stream))) {
     uv__io_stop(stream->loop, &stream->io_watcher, POLLOUT);
   }
 
